@@ -1012,6 +1012,10 @@ class GroupCoordinator(BaseCoordinator):
             except Errors.KafkaError as err:
                 if not err.retriable:
                     raise
+                elif self._closing.done() and self.coordinator_id is None:
+                    # ``ensure_coordinator_known()`` does not look the coordinator
+                    # up any more once closing has begun, so we can't retry.
+                    raise
                 else:
                     # wait backoff and try again
                     await asyncio.sleep(self._retry_backoff_ms / 1000)
